@@ -125,6 +125,25 @@ fn c11(seed: u64) {
             }
         }
     }
+    // (1b) EVERY packet 1 a Handshake hands out carries a valid digest, also when the generator is called again on the same
+    //      instance (explicitly, or after process_bytes generated it implicitly), some milliseconds later
+    for &server in &[false, true] {
+        for implicit_first in [false, true] {
+            let mut h = Handshake::new(role(server));
+            if implicit_first { let _ = h.process_bytes(&[3]); }
+            for call in 0..4 {
+                if call > 0 || implicit_first { std::thread::sleep(std::time::Duration::from_millis(3)); }
+                let out = match h.generate_outbound_p0_and_p1() { Ok(o) => o, Err(_) => break };
+                if out.len() != 1537 || out[0] != 3 { fail(format!("c11 p0+p1 of call #{} has length {} server={}", call + 1, out.len(), server)); }
+                let p1 = &out[1..];
+                let off = if server { off_server(p1) } else { off_client(p1) };
+                if p1[off..off + 32] != digest_of(p1, off, own_key(server)) {
+                    fail(format!("c11 the packet 1 returned by call #{} of generate_outbound_p0_and_p1 on one Handshake (server={}, first generation {}) carries no valid HMAC-SHA256 digest at offset {}",
+                                 call + 1, server, if implicit_first { "implicit, inside process_bytes" } else { "explicit" }, off));
+                }
+            }
+        }
+    }
     // (2) packet 2 in answer to a digest-bearing packet 1: both roles, both schemes, all 728 offsets
     for &server in &[false, true] {
         let peer_key = own_key(!server);
